@@ -573,19 +573,20 @@ def partition_menu(tier):
     def p(name, cpu, mem, disk, limits):
         return (name, {'partition': PART, 'cell': CELL, 'cpu': cpu,
                        'memory': mem, 'disk': disk, 'limits': limits})
-    gpu = {'trait': 'gpu', 'cpu': '50%', 'memory': '2G', 'disk': '2048M'}
-    ssd = {'trait': 'ssd', 'cpu': '30%', 'memory': '1G', 'disk': '3G'}
+    # memory and disk differ everywhere so that a mixed-up dimension shows
+    gpu = {'trait': 'gpu', 'cpu': '50%', 'memory': '2G', 'disk': '3072M'}
+    ssd = {'trait': 'ssd', 'cpu': '30%', 'memory': '1G', 'disk': '5G'}
     menu = [
         ('absent', None),
-        p('plain', '100%', '4G', '4G', []),
-        p('gpu', '100%', '4G', '4G', [gpu]),
-        p('gpu+ssd', '100%', '4096M', '4G', [gpu, ssd]),
+        p('plain', '100%', '4G', '6G', []),
+        p('gpu', '100%', '4G', '6G', [gpu]),
+        p('gpu+ssd', '100%', '4096M', '6G', [gpu, ssd]),
     ]
     if tier == 'thorough':
         menu += [
-            p('gpu-wide', '100%', '4G', '4G',
-              [{'trait': 'gpu', 'cpu': '150%', 'memory': '8G', 'disk': '8G'}]),
-            p('gpu-zero', '100%', '4G', '4G',
+            p('gpu-wide', '100%', '4G', '6G',
+              [{'trait': 'gpu', 'cpu': '150%', 'memory': '8G', 'disk': '9G'}]),
+            p('gpu-zero', '100%', '4G', '6G',
               [{'trait': 'gpu', 'cpu': '0%', 'memory': '0G', 'disk': '0G'},
                ssd]),
         ]
@@ -727,20 +728,20 @@ def single_cases(tier, pname, prec, menu, combo):
 def history_partitions():
     return [
         {'partition': PART, 'cell': CELL, 'cpu': '100%', 'memory': '4G',
-         'disk': '4G',
+         'disk': '8G',
          'limits': [{'trait': 'gpu', 'cpu': '50%', 'memory': '2G',
-                     'disk': '2G'}]},
+                     'disk': '4G'}]},
         {'partition': DEFAULT_PARTITION, 'cell': CELL, 'cpu': '50%',
-         'memory': '2G', 'disk': '2G', 'limits': []},
+         'memory': '2G', 'disk': '4G', 'limits': []},
     ]
 
 
 def history_calls(tier):
-    sizes = [('25%', '1G', '1024M'), ('50%', '2048M', '2G'),
-             ('26%', '1G', '1G')]
+    sizes = [('25%', '1G', '2048M'), ('50%', '2048M', '4G'),
+             ('26%', '1G', '2G')]
     ids = ['t/a1', 't/a2']
     if tier == 'thorough':
-        sizes += [('100%', '4G', '4G'), ('25%', '1025M', '1G')]
+        sizes += [('100%', '4G', '8G'), ('25%', '1025M', '2G')]
         ids += ['t/a3']
     creates, updates = [], []
     for alloc in ids:
